@@ -288,10 +288,11 @@ func (x *Exec) doRun(op Op) (*StepRecord, error) {
 	rec.Local = m.Closure(rec.Direct)
 	for _, pi := range rec.Local {
 		ip := m.ImportPath(pi)
+		rec.Content[ip] = DirFiles(x.pkgDir(pi))
 		if h, ok := HashDir(x.pkgDir(pi)); ok {
 			rec.Hload[ip] = h
+			x.Model.Observe(ip, h, rec.Content[ip])
 		}
-		rec.Content[ip] = DirFiles(x.pkgDir(pi))
 	}
 
 	w, err := x.worker(run.Fresh)
